@@ -1278,6 +1278,14 @@ impl<D: DependencyProvider, RT: AsyncRuntime> Solver<D, RT> {
 
         tracing::debug!("=== ANALYZE UNSOLVABLE");
 
+        #[cfg(feature = "verif-hooks")]
+        self.state
+            .decision_tracker
+            .verif_events
+            .push(crate::verif::VerifEvent::AnalyzeUnsolvable(
+                clause_id.to_usize() as u32,
+            ));
+
         let mut involved = HashSet::default();
         self.state.clauses.kinds[clause_id.to_usize()].visit_literals(
             &self.state.learnt_clauses,
